@@ -944,6 +944,13 @@ func (t *hpType) notApplied(w *hpWrite, before, after [][]int) string {
 		}
 	case "del-el", "del-sel-el":
 		named := t.namedEl(w)
+		// if the partial part of the same write sets a field the delete selector looks at, which elements
+		// "matched" is not decidable from before / after alone: not judged
+		for j, x := range w.fds {
+			if x >= 0 && j < len(t.selMap) && t.selMap[j] >= 0 && overl[t.selMap[j]] {
+				named = nil
+			}
+		}
 		for _, a := range after {
 			if w.fds != nil && !t.matches(w.fds, a) {
 				continue
@@ -1010,6 +1017,22 @@ func (t *hpType) notApplied(w *hpWrite, before, after [][]int) string {
 			return ""
 		}
 		k := t.keyOf(m[0])
+		// the selected element is re-found by its identifier: that needs the identifier to be unique and
+		// not to be overwritten by the write itself
+		nk := 0
+		for _, e := range before {
+			if t.keyOf(e) == k {
+				nk++
+			}
+		}
+		for _, key := range t.keys {
+			if w.items[0][key.idx] >= 0 {
+				nk = 2
+			}
+		}
+		if nk != 1 {
+			return ""
+		}
 		for _, a := range after {
 			if t.keyOf(a) != k {
 				continue
